@@ -541,7 +541,7 @@ static CMR_ERROR CMRintmatComputeUpperDiagonalGMP(CMR* cmr, CMR_INTMAT* matrix, 
     if (error == CMR_OKAY)
       CMR_CALL( CMRintmatSortNonzeros(cmr, result) );
 
-    if (ptranspose)
+    if (ptranspose && (error == CMR_OKAY))
       CMR_CALL( CMRintmatTranspose(cmr, result, ptranspose) );
 
     if (presult)
